@@ -155,6 +155,14 @@ def template(tid, tmp=None):
         f.variables['O3'][...] = a + 100
         f.variables['NO2'][...] = a + 200
         return f
+    if tid == 'I7':   # read from disk: irregular time axis (gaps over the
+        # year end), and an unlisted auxiliary profile PRES(TSTEP, LAY)
+        from PseudoNetCDF.cmaqfiles import ioapi
+        p = os.path.join(tmp, 'i7_%d.nc' % os.getpid())
+        if not os.path.exists(p):
+            poolmod.write_ioapi_nc(p, base=300, nt=5, nl=2, nr=2, nc=2,
+                                   gaps=[0, 1, 3, 4, 8], profile=True)
+        return ioapi(p)
     if tid == 'I5':   # read from disk
         from PseudoNetCDF.cmaqfiles import ioapi
         p = os.path.join(tmp, 'i5_%d.nc' % os.getpid())
@@ -165,7 +173,7 @@ def template(tid, tmp=None):
     raise ValueError(tid)
 
 
-TEMPLATES = ['I1', 'I2', 'I3', 'I4', 'I5', 'I6']
+TEMPLATES = ['I1', 'I2', 'I3', 'I4', 'I5', 'I6', 'I7']
 
 
 def call(objs, st, tmp):
@@ -300,6 +308,49 @@ def tstep_stacks(rnd, tier):
     return progs
 
 
+def tstep_selections(rnd, tier):
+    """C02 on IOAPI files: selections of the time axis that are no increasing
+    arithmetic progression (uneven, repeated, unordered, negative indices,
+    reversed): TFLAG must be the selected hyperslab of the source's TFLAG."""
+    def sl(a, b, c):
+        return {'k': 'slice', 'h': [a is not None, b is not None,
+                                    c is not None],
+                'v': [x if x is not None else 0 for x in (a, b, c)]}
+    nts = {'I1': 3, 'I4': 4, 'I6': 3, 'I7': 5, 'I5': 3}
+    progs = []
+    for t in sorted(nts):
+        n = nts[t]
+        sels = [{'k': 'list', 'v': [0, n - 1]}, {'k': 'list', 'v': [1, 1, 0]},
+                {'k': 'list', 'v': [n - 1, 0]}, {'k': 'list', 'v': [-1, 0, 1]},
+                sl(None, None, -1), sl(None, None, 2), sl(1, None, None),
+                {'k': 'int', 'v': -1}]
+        for s_ in sels:
+            args = {'sels': [{'d': 'TSTEP', 's': s_}], 'newdim': 'POINTS'}
+            if rnd.random() < 0.3:
+                args['alias'] = True
+            progs.append({'templates': [t, t], 'steps': [{
+                'act': 'slice', 'src': 1, 'others': [], 'args': args}]})
+    return progs
+
+
+def run_ioapi_slices(out, tier):
+    """C02 part on IOAPI files (TFLAG is data too)."""
+    rnd = random.Random(seed() * 7919 + 2)
+    progs = tstep_selections(rnd, tier)
+    args = [(900000 + i, p) for i, p in enumerate(progs)]
+    res = run_cases(execute, args, timeout=120, per_child=1)
+    for a, t in zip(args, res):
+        if '_crash' in t or '_hang' in t:
+            raise Machinery('IOAPI program failed: %r\n%r' % (a[1], t))
+    out.cov['evaluations'] += sum(len(t['steps']) for t in res)
+    out.cov['ioapi_time_selections'] = len(res)
+    verdicts = validate_traces('Ioapi_Trace', res, out, shard=250,
+                               env={'PNC_E_C10': '0', 'PNC_E_C11': '0',
+                                    'PNC_E_C02': '1'},
+                               label='C02-ioapi', timeout=1500)
+    settle(out, res, verdicts, None)
+
+
 def execute(arg):
     tid, prog = arg
     import warnings
@@ -421,7 +472,7 @@ def run_ioapi(out, tier, prop):
                                  'others': s['others'], 'args': s['args'],
                                  'res': s['res']} for s in t['steps']]})
     env = {'PNC_E_C10': '1' if prop == 'C10' else '0',
-           'PNC_E_C11': '1' if prop == 'C11' else '0'}
+           'PNC_E_C11': '1' if prop == 'C11' else '0', 'PNC_E_C02': '0'}
     verdicts = validate_traces('Ioapi_Trace', traces, out, shard=250,
                                env=env, label=prop, timeout=1500)
     settle(out, traces, verdicts, None)
